@@ -60,6 +60,7 @@ inductive Field where
   | features            -- RawFeatureVector: u16 length + bit vector; re-encoded with the minimal
                         -- number of bytes (bit indices are `uint16`: they wrap modulo 2^16)
   | addrs               -- []net.Addr: u16 length + address descriptors (replay only, no theorem)
+  | scids               -- encoded short-channel-id list (plain / empty zlib; replay only)
   deriving DecidableEq
 
 inductive Tail where
@@ -143,6 +144,37 @@ def decBlob (norm : Bytes → Option Bytes) (b : Bytes) : Option (Bytes × Bytes
     | none => none
     | some d => some (beBytes 2 d.length ++ d, (b.drop 2).drop (beNat (b.take 2)))
 
+def chunks (n : Nat) : Nat → Bytes → List Bytes
+  | 0, _ => []
+  | fuel + 1, b => if b.isEmpty || n == 0 then [] else b.take n :: chunks n fuel (b.drop n)
+
+/-- short-channel-id list field of query_short_chan_ids / reply_channel_range
+    (`decodeShortChanIDs` / `encodeShortChanIDs`), plain encoding and empty zlib payload;
+    a non-empty zlib payload is outside the model (`scidsUnmodelled`). -/
+def sortedStrictBE : List Bytes → Bool
+  | [] => true
+  | [_] => true
+  | a :: b :: rest => decide (beNat a < beNat b) && sortedStrictBE (b :: rest)
+
+def decScids (b : Bytes) : Option (Bytes × Bytes) :=
+  if b.length < 2 then none else
+  let l := beNat (b.take 2)
+  let r := b.drop 2
+  if l == 0 then some ([0, 1, 0], r)
+  else if r.length < l then none
+  else
+    let blob := r.take l
+    match blob with
+    | [] => none
+    | e :: ids =>
+      if e == 0 then
+        if ids.length % 8 != 0 then none
+        else if !sortedStrictBE (chunks 8 (ids.length + 1) ids) then none
+        else some (b.take (2 + l), r.drop l)
+      else if e == 1 then
+        if ids.isEmpty then some (b.take (2 + l), r.drop l) else none
+      else none
+
 def utf8Ok (v : Bytes) : Bool := (ByteArray.mk v.toArray).validateUTF8
 
 /-- decode one field: re-encoded bytes and remaining input. -/
@@ -162,6 +194,7 @@ def decField : Field → Bytes → Option (Bytes × Bytes)
     else if utf8Ok (b.take 32) then some (b.take 32, b.drop 32) else none
   | .features, b => decBlob (fun d => some (featNorm d)) b
   | .addrs, b => decBlob (fun d => normAddrs (d.length + 1) d) b
+  | .scids, b => decScids b
 
 def decFields : List Field → Bytes → Option (Bytes × Bytes)
   | [], b => some ([], b)
@@ -240,19 +273,274 @@ def schemaOf (dropUnknown : Bool) (t : Nat) : Option Schema :=
                  known := [(0, kNonce), (1, .fixed 8), (2, kNonce), (4, kNonce)] } -- channel_ready
   | _ => none
 
+/-! ### extended schemas (replay level)
+
+`SchemaX` adds what the remaining registered message types need on top of a plain `Schema`:
+an optional second block of fixed fields (channel_reestablish), value predicates of
+variable-length known records, known records the encoder does not re-emit (empty lists / default
+values), records the encoder always emits, cross-record constraints, and a keep-predicate for
+unknown records (the signed ranges of the pure-TLV gossip messages).  `runSchemaX` with all of
+these neutral IS `runSchema` (`WireProps.runSchemaX_plain`). -/
+
+structure SchemaX extends Schema where
+  /-- second block of fields, read only when at least one byte follows the first block. -/
+  optional : List Field := []
+  /-- extra value predicate of a known record (record decoders of variable-length values). -/
+  recOk : List (Nat × (Bytes → Bool)) := []
+  /-- known record dropped by the encoder when the predicate holds for its value. -/
+  skip : List (Nat × (Bytes → Bool)) := []
+  /-- records the encoder always writes: value used when the input has no such record. -/
+  always : List (Nat × Bytes) := []
+  /-- constraint over the re-encoded fixed part and the record list. -/
+  check : Bytes → List Rec → Bool := fun _ _ => true
+  /-- `some p`: an unknown record is written back iff `p type` (overrides the tail discipline). -/
+  keepUnknown : Option (Nat → Bool) := none
+  /-- record types whose `norm` entry models a RECORDED DEFECT of the code, not a documented
+      normalisation (the monitor does not exempt them). -/
+  quirk : List Nat := []
+
+def insertRec (r : Rec) : List Rec → List Rec
+  | [] => [r]
+  | x :: xs => if r.1 < x.1 then r :: x :: xs else x :: insertRec r xs
+
+def findFn {α : Type} (l : List (Nat × α)) (t : Nat) : Option α :=
+  (l.find? (·.1 == t)).map (·.2)
+
+/-- the records written back for the decoded record list `rs`. -/
+def tlvOut (sx : SchemaX) (rs : List Rec) : List Rec :=
+  let kept := rs.filter fun r =>
+    if (lookupKind sx.known r.1).isSome then
+      match findFn sx.skip r.1 with
+      | some p => !(p r.2)
+      | none => true
+    else match sx.keepUnknown with
+      | some p => p r.1
+      | none => sx.tail != .tlvKnownOnly
+  let normed := kept.map (normRec sx.norm)
+  sx.always.foldl (fun acc a => if rs.any (·.1 == a.1) then acc else insertRec a acc) normed
+
+def runTailX (sx : SchemaX) (enc rest : Bytes) : Outcome :=
+  match sx.tail with
+  | .ignore => .accept enc
+  | .opaque => .accept (enc ++ rest)
+  | _ =>
+    match decodeStream sx.known true rest with
+    | .error _ => .reject
+    | .ok rs =>
+      if !(rs.all fun r => match findFn sx.recOk r.1 with | some p => p r.2 | none => true) then .reject
+      else if !(sx.check enc rs) then .reject
+      else .accept (enc ++ encodeStream (tlvOut sx rs))
+
+def runSchemaX (sx : SchemaX) (body : Bytes) : Outcome :=
+  match decFields sx.fields body with
+  | none => .reject
+  | some (enc, rest) =>
+    if sx.optional.isEmpty then runTailX sx enc rest
+    else if rest.isEmpty then .accept enc
+    else match decFields sx.optional rest with
+      | none => .reject
+      | some (enc2, rest2) => runTailX sx (enc ++ enc2) rest2
+
+/-! #### record kinds of the remaining messages -/
+
+def hasType (rs : List Rec) (ts : List Nat) : Bool := rs.any fun r => ts.contains r.1
+
+/-- LocalNoncesData (revoke_and_ack / channel_reestablish record 22): ≤ 16 entries of
+    txid(32) ‖ nonce(66), nonces valid, txids distinct; written back sorted by txid. -/
+def localNoncesOk (v : Bytes) : Bool :=
+  v.length % 98 == 0 && v.length / 98 ≤ 16 &&
+    (let es := chunks 98 17 v
+     es.all (fun e => nonceOk (e.drop 32)) && (es.map (·.take 32)).Nodup)
+
+def bytesLt : Bytes → Bytes → Bool
+  | [], [] => false
+  | [], _ => true
+  | _, [] => false
+  | x :: xs, y :: ys => if x < y then true else if y < x then false else bytesLt xs ys
+
+def insertSorted (e : Bytes) : List Bytes → List Bytes
+  | [] => [e]
+  | x :: xs => if bytesLt (e.take 32) (x.take 32) then e :: x :: xs else x :: insertSorted e xs
+
+def localNoncesNorm (v : Bytes) : Bytes :=
+  ((chunks 98 17 v).foldl (fun acc e => insertSorted e acc) []).flatten
+
+/-- is the id list at offset `off` zlib-compressed with a payload (not modelled)? -/
+def scidsUnmodelled (body : Bytes) (off : Nat) : Bool :=
+  let b := body.drop off
+  b.length ≥ 4 && beNat (b.take 2) ≥ 2 && (b.drop 2).length ≥ beNat (b.take 2) && b[2]? == some 1
+
+def tsOk (v : Bytes) : Bool := v.length ≥ 1 && v[0]? == some 0 && (v.length - 1) % 8 == 0
+
+def dynKnown : Known :=
+  [(0, .bigsize), (2, .bigsize), (4, .bigsize), (6, .bigsize), (8, .fixed 2), (10, .fixed 2), (12, .varBytes)]
+
+def chanOpenKnown : Known := [(0, .varBytes), (1, .varBytes), (4, kNonce), (65536, .fixed 4)]
+
+/-- BOLT-7 v2 pure-TLV messages: unknown records survive re-encoding iff they lie in the signed
+    ranges (`ExtraSignedFieldsFromTypeMap` / `InUnsignedRange`). -/
+def inSignedRange (t : Nat) : Bool := !((160 ≤ t && t < 1000000000) || t ≥ 3000000000)
+
+def zeros (n : Nat) : Bytes := List.replicate n 0
+
+/-- chaincfg.MainNetParams.GenesisHash as stored in a `chainhash.Hash`. -/
+def mainnetGenesis : Bytes :=
+  [0x6f, 0xe2, 0x8c, 0x0a, 0xb6, 0xf1, 0xb3, 0x72, 0xc1, 0xa6, 0xa2, 0x46, 0xae, 0x63, 0xf7, 0x4f,
+   0x93, 0x1e, 0x83, 0x65, 0xe1, 0x5a, 0x08, 0x9c, 0x68, 0xd6, 0x19, 0x00, 0x00, 0x00, 0x00, 0x00]
+
+def hostCharOk (c : UInt8) : Bool :=
+  (97 ≤ c && c ≤ 122) || (65 ≤ c && c ≤ 90) || (48 ≤ c && c ≤ 57) || c == 45 || c == 46
+
+/-- `dnsAddressDecoder` + `ValidateDNSAddr`: hostname ‖ port(2). -/
+def dnsOk (v : Bytes) : Bool :=
+  v.length ≥ 3 && v.length - 2 ≤ 255 && (v.take (v.length - 2)).all hostCharOk &&
+    beNat (v.drop (v.length - 2)) != 0
+
+def alias2Ok (v : Bytes) : Bool := v.length ≥ 1 && v.length ≤ 32 && utf8Ok v
+
+/-- HEAD behaviour of `ipv4AddrsDecoder` / `ipv6AddrsDecoder` (finding
+    F-lnwire-addr-list-decoders): every decoded `net.TCPAddr.IP` aliases ONE shared buffer, so all
+    addresses of the list end up with the IP of the last one (ports are kept). -/
+def aliasIpNorm (n : Nat) (v : Bytes) : Bytes :=
+  let es := chunks n (v.length + 1) v
+  match es.getLast? with
+  | none => v
+  | some l => (es.map fun e => l.take (n - 2) ++ e.drop (n - 2)).flatten
+
+/-- HEAD behaviour of the same decoders and `torV3AddrsDecoder` (`r.Read` instead of
+    `io.ReadFull`): a list record whose value is cut short by the END OF THE MESSAGE by exactly one
+    byte is accepted.  Such inputs are outside the model (monitor clause `tail-not-canonical`). -/
+def shortReadUnmodelled : Nat → Bytes → Bool
+  | 0, _ => false
+  | fuel + 1, b =>
+    match readVarInt b with
+    | .ok (t, r1) =>
+      match readVarInt r1 with
+      | .ok (l, r2) =>
+        if r2.length < l then (t == 5 || t == 7 || t == 9) && r2.length + 1 == l
+        else shortReadUnmodelled fuel (r2.drop l)
+      | .error _ => false
+    | .error _ => false
+
+/-- extended schemas of the remaining registered message types (and the custom range). -/
+def schemaXOf (dropUnknown : Bool) (t : Nat) (body : Bytes) : Option SchemaX :=
+  let keepTail : Tail := if dropUnknown then .tlvKnownOnly else .tlvAll
+  match t with
+  | 777 => some { fields := [.fixed 32, .fixed 64], tail := .opaque }            -- kickoff_sig
+  | 513 => some { fields := [.pubkey, .varU16], tail := .ignore }                -- onion_message
+  | 115 => some { fields := [.fixed 32, .features], tail := .opaque }            -- dyn_reject
+  | 263 => some { fields := [.fixed 32, .fixed 4, .fixed 4], tail := keepTail,
+                  known := [(1, .varBytes)], norm := [(1, featNorm)] }           -- query_channel_range
+  | 133 => some { fields := [.fixed 32, .fixed 32, .pubkey], tail := keepTail,
+                  known := [(4, kNonce), (22, .varBytes)], recOk := [(22, localNoncesOk)],
+                  norm := [(22, localNoncesNorm)] }                              -- revoke_and_ack
+  | 136 => some { fields := [.fixed 32, .fixed 8, .fixed 8], optional := [.fixed 32, .pubkey],
+                  tail := keepTail, known := [(4, kNonce), (20, .fixed 8), (22, .varBytes)],
+                  recOk := [(22, localNoncesOk)], norm := [(22, localNoncesNorm)] } -- channel_reestablish
+  | 258 =>                                                                        -- channel_update
+    let base : List Field := [.fixed 64, .fixed 32, .fixed 8, .fixed 4, .fixed 1, .fixed 1, .fixed 2,
+      .fixed 8, .fixed 4, .fixed 4]
+    let hasMax := match body[108]? with | some f => f.toNat % 2 == 1 | none => false
+    some { fields := if hasMax then base ++ [.fixed 8] else base, tail := keepTail,
+           known := [(55555, .fixed 8)] }
+  | 32 => some { fields := [.fixed 32, .fixed 32, .fixed 8, .fixed 8, .fixed 8, .fixed 8, .fixed 8,
+                   .fixed 8, .fixed 4, .fixed 2, .fixed 2, .pubkey, .pubkey, .pubkey, .pubkey, .pubkey,
+                   .pubkey, .fixed 1],
+                 tail := keepTail, known := chanOpenKnown, norm := [(1, featNorm)],
+                 always := [(0, [])] }                                           -- open_channel
+  | 33 => some { fields := [.fixed 32, .fixed 8, .fixed 8, .fixed 8, .fixed 8, .fixed 4, .fixed 2,
+                   .fixed 2, .pubkey, .pubkey, .pubkey, .pubkey, .pubkey, .pubkey],
+                 tail := keepTail, known := chanOpenKnown, norm := [(1, featNorm)],
+                 always := [(0, [])] }                                           -- accept_channel
+  | 40 => some { fields := [.fixed 32, .deliveryAddr, .deliveryAddr, .fixed 8, .fixed 4], tail := keepTail,
+                 known := [(1, .fixed 64), (2, .fixed 64), (3, .fixed 64), (5, kPartialSigNonce),
+                   (6, kPartialSigNonce), (7, kPartialSigNonce)],
+                 norm := [(5, normSigNonce), (6, normSigNonce), (7, normSigNonce)],
+                 check := fun _ rs => !(hasType rs [1, 2, 3] && hasType rs [5, 6, 7]) } -- closing_complete
+  | 41 => some { fields := [.fixed 32, .deliveryAddr, .deliveryAddr, .fixed 8, .fixed 4], tail := keepTail,
+                 known := [(1, .fixed 64), (2, .fixed 64), (3, .fixed 64), (5, kPartialSig),
+                   (6, kPartialSig), (7, kPartialSig), (22, kNonce)],
+                 norm := [(5, normScalar), (6, normScalar), (7, normScalar)],
+                 check := fun _ rs => !(hasType rs [1, 2, 3] && hasType rs [5, 6, 7]) } -- closing_sig
+  | 111 => some { fields := [.fixed 32], tail := .tlvAll, known := dynKnown,
+                  norm := [(12, featNorm)] }                                     -- dyn_propose
+  | 113 => some { fields := [.fixed 32, .fixed 64], tail := .tlvAll, known := [(14, kNonce)] } -- dyn_ack
+  | 117 => some { fields := [.fixed 32, .fixed 64], tail := .tlvAll,
+                  known := dynKnown ++ [(14, kNonce)], norm := [(12, featNorm)] } -- dyn_commit
+  | 261 => some { fields := [.fixed 32, .scids], tail := .opaque }               -- query_short_chan_ids
+  | 264 => some { fields := [.fixed 32, .fixed 4, .fixed 4, .fixed 1, .scids], tail := keepTail,
+                  known := [(1, .varBytes)], recOk := [(1, tsOk)],
+                  skip := [(1, fun v => v.length ≤ 1)],
+                  check := fun enc rs =>
+                    match rs.find? (·.1 == 1) with
+                    | none => true
+                    | some r => (r.2.length - 1) / 8 == (beNat ((enc.drop 41).take 2) - 1) / 8 } -- reply_channel_range
+  | 260 => some { fields := [], tail := .tlvAll, keepUnknown := some inSignedRange,
+                  known := [(0, .fixed 32), (2, .fixed 8), (4, kPartialSig)], norm := [(4, normScalar)],
+                  always := [(0, zeros 32), (2, zeros 8), (4, zeros 32)] }      -- announcement_signatures_2
+  | 267 => some { fields := [], tail := .tlvAll, keepUnknown := some inSignedRange,
+                  known := [(0, .fixed 32), (2, .varBytes), (4, .fixed 8), (6, .fixed 8), (8, .fixed 33),
+                    (10, .fixed 33), (12, .fixed 33), (14, .fixed 33), (16, .fixed 32), (18, .fixed 34),
+                    (160, .fixed 64)],
+                  norm := [(2, featNorm)], skip := [(0, fun v => v == mainnetGenesis)],
+                  always := [(2, []), (4, zeros 8), (6, zeros 8), (8, zeros 33), (10, zeros 33),
+                    (18, zeros 34), (160, zeros 64)] }                           -- channel_announcement_2
+  | 269 => some { fields := [], tail := .tlvAll, keepUnknown := some inSignedRange,
+                  known := [(0, .varBytes), (1, .fixed 3), (2, .fixed 4), (3, .varBytes), (4, .fixed 33),
+                    (5, .varBytes), (7, .varBytes), (9, .varBytes), (11, .varBytes), (160, .fixed 64)],
+                  norm := [(0, featNorm), (5, aliasIpNorm 6), (7, aliasIpNorm 18)], quirk := [5, 7],
+                  recOk := [(3, alias2Ok), (5, fun v => v.length % 6 == 0), (7, fun v => v.length % 18 == 0),
+                    (9, fun v => v.length % 37 == 0), (11, dnsOk)],
+                  always := [(0, []), (2, zeros 4), (4, zeros 33), (160, zeros 64)] } -- node_announcement_2
+  | 271 => some { fields := [], tail := .tlvAll, keepUnknown := some inSignedRange,
+                  known := [(0, .fixed 32), (2, .fixed 8), (4, .fixed 4), (6, .fixed 1), (8, .varBytes),
+                    (10, .fixed 2), (12, .bigsize), (14, .bigsize), (16, .fixed 4), (18, .fixed 4),
+                    (160, .fixed 64), (55555, .fixed 8)],
+                  recOk := [(8, fun v => v.length ≤ 1)], norm := [(8, fun _ => [])],
+                  skip := [(0, fun v => v == mainnetGenesis), (6, fun v => v == [0]),
+                    (10, fun v => v == [0, 80]), (12, fun v => v == [1]),
+                    (16, fun v => v == [0, 0, 3, 232]), (18, fun v => v == [0, 0, 0, 1])],
+                  always := [(2, zeros 8), (4, zeros 4), (14, [0]), (160, zeros 64)] } -- channel_update_2
+  | _ =>
+    if t ≥ 32768 then some { fields := [], tail := .opaque }                     -- custom range
+    else (schemaOf dropUnknown t).map fun sc => { toSchema := sc }
+
 /-- what /repo HEAD does (see `checks/C10.notes.md`). -/
 def dropUnknownAtHead : Bool := true
 
-/-- `ReadMessage` then `WriteMessage` on wire bytes, for the modelled types. -/
+/-- `ReadMessage` then `WriteMessage` on wire bytes, for the modelled types.  `none`: the input is
+    outside the model (a zlib-compressed id list with a payload), or the type is not registered. -/
 def modelMessage (b : Bytes) : Option Outcome :=
   if b.length < 2 then none else
   let t := beNat (b.take 2)
-  match schemaOf dropUnknownAtHead t with
+  let body := b.drop 2
+  if (t == 261 && scidsUnmodelled body 32) || (t == 264 && scidsUnmodelled body 41) ||
+      (t == 269 && shortReadUnmodelled (body.length + 1) body) then none else
+  match schemaXOf dropUnknownAtHead t body with
   | none => none
-  | some sc =>
-    match runSchema sc (b.drop 2) with
+  | some sx =>
+    match runSchemaX sx body with
     | .reject => some .reject
     | .accept enc => some (.accept (b.take 2 ++ enc))
+
+/-- the extension tail of a message whose schema has a TLV tail (used by the monitor only to
+    LOCATE the tail; the verdict on it comes from the driver's naive recogniser). -/
+def tlvTailOf (b : Bytes) : Option (SchemaX × Bytes) :=
+  if b.length < 2 then none else
+  let t := beNat (b.take 2)
+  let body := b.drop 2
+  match schemaXOf dropUnknownAtHead t body with
+  | none => none
+  | some sx =>
+    if sx.tail == .ignore || sx.tail == .opaque then none else
+    match decFields sx.fields body with
+    | none => none
+    | some (_, rest) =>
+      if sx.optional.isEmpty then some (sx, rest)
+      else if rest.isEmpty then none
+      else match decFields sx.optional rest with
+        | none => none
+        | some (_, rest2) => some (sx, rest2)
 
 /-! ### onion failures (`DecodeFailure` / `EncodeFailure`), replay only -/
 
